@@ -455,6 +455,8 @@ def evaluate_engine(m, er, rankers):
         cfgs = [c for c in cfgs if c[5] in ("cheap", "random")]
     _FORK[0] = ee
     nproc = max(1, min(12, (os.cpu_count() or 2) - 2))
+    if os.environ.get("UBCHECK_EVAL_PROCS"):
+        nproc = max(1, int(os.environ["UBCHECK_EVAL_PROCS"]))  # the development harnesses run many checks side by side
     chunks = [cfgs[i::nproc * 3] for i in range(nproc * 3)]
     try:
         if nproc > 1 and not mp.current_process().daemon:
